@@ -409,6 +409,12 @@ def verify_targets(targets, repo, tier='quick', property_id=None, native=True):
         con = C.lookup(t)
         report['trusted_base'].append('%s (assumed contract%s)' % (t, ': ' + con.notes if con and con.notes else ''))
     report['trusted_base'] += TRUSTED_BASE_COMMON
+    n_memo = sum(v for k, v in report['backends'].items() if k.endswith('+memo'))
+    if n_memo:
+        report['assumptions'].append(
+            'quick tier: %d of %d solver verdicts were looked up under the SHA-256 of the byte-identical query text (memo/smt_memo.json.gz, '
+            '.cache/smt) instead of being recomputed; the conditions themselves were regenerated from the working tree; the thorough tier '
+            're-solves everything' % (n_memo, report['obligations']))
     report['wall_s'] = time.time() - t0
     return report
 
